@@ -28,7 +28,8 @@ RULE = ("rule-based state machine that owns the clock: a receiver (|lat| <= 70, 
         "in ADS-B and BDS 5,0 data attached for listed ones; the two tables are equal after upper-casing; every stored position whose tpos is the timestamp of "
         "a position message is within max(0.001 deg, one CPR step) of the true position at that message (lon mod 360). non-trivial = history with a global and "
         "a reference decode, an eviction, a Comm-B merge, or a crossing of an NL band / equator / antimeridian"
-        " Also: histories starting at 1000, 0, negative or 1.7e9 seconds, process_raw called three times less than a second apart across 59-61 s of silence, a decoder created without a receiver position, every third Comm-B reply with identical header bits, and the repository's real reception log replayed in batches of 1/2/5/17 s (leg real_traffic); crowds of 40-5300 further aircraft, squitters that arrive with a damaged parity field (their sender was heard all the same), a decoder with dumpto=<scratch directory>, messages with equal time stamps with and without a vertical rate / an altitude, pairs after a 20-minute position gap at 600 kt, a frame bit-identical to the one sent a whole CPR zone earlier (rule zone_walk), Comm-B replies from unknown addresses that differ from a tracked one by a register number in the top byte or by one bit, BDS 3,0 reports naming tracked aircraft as the threat. Further invariants: a call changes only the records of the aircraft that sent something in it; a stored position that changed in a call is within tolerance of the true position at one of that aircraft's position messages of the call.")
+        " Also: histories starting at 1000, 0, negative or 1.7e9 seconds, process_raw called three times less than a second apart across 59-61 s of silence, a decoder created without a receiver position, every third Comm-B reply with identical header bits, and the repository's real reception log replayed in batches of 1/2/5/17 s (leg real_traffic); crowds of 40-5300 further aircraft, squitters that arrive with a damaged parity field (their sender was heard all the same), a decoder with dumpto=<scratch directory>, messages with equal time stamps with and without a vertical rate / an altitude, pairs after a 20-minute position gap at 600 kt, a frame bit-identical to the one sent a whole CPR zone earlier (rule zone_walk), Comm-B replies from unknown addresses that differ from a tracked one by a register number in the top byte or by one bit, BDS 3,0 reports naming tracked aircraft as the threat. Further invariants: a call changes only the records of the aircraft that sent something in it; a stored position that changed in a call is within tolerance of the true position at one of that aircraft's position messages of the call."
+        ' Also: TC 20-22 positions, the T bit, Comm-B replies valid as BDS 5,0 and 6,0 at once, a libFuzzer campaign over step lists in the thorough tier.')
 ASSUMPTIONS = ["timestamps non-decreasing and tnow >= every timestamp of the batch", "surface aircraft stay within 30 NM of the receiver (surface CPR needs the receiver within 45 NM)",
                "noise messages use addresses distinct from the trajectory aircraft", "a Comm-B reply counts as 'heard' only for an address the table listed at that moment",
                "the zmq/multiprocessing plumbing and the curses screen of modeslive are not run",
